@@ -584,7 +584,7 @@ func endToEnd() {
 			}
 			seen[n] = true
 			c := fmt.Sprintf("e2e-%d-%d", k, i)
-			if err := ctx.AddAttachment(model.Attachment{Reader: strings.NewReader(c), ID: n, FileName: n}, false); err != nil {
+			if err := ctx.AddAttachment(model.Attachment{Reader: strings.NewReader(c), ID: n, FileName: n}, k%2 == 1); err != nil { // odd k: portfolio (collection)
 				r.Count("class:e2e-add-rejected")
 				continue
 			}
@@ -684,4 +684,7 @@ func main() {
 	writeAttachmentCases()
 	writerCases()
 	endToEnd()
+	splitBookmarkCases()
+	imageResourceCases()
+	metadataWriterCases()
 }
